@@ -45,7 +45,7 @@ pub fn checker_inputs() -> Vec<(String, CkCase)> {
 }
 
 /// VM programs with compute children that differ by index.
-pub fn vm_programs() -> Vec<(String, Vec<Op>, RVm)> {
+pub fn vm_programs() -> Vec<(String, Vec<Op>, RVm, &'static str)> {
     use asm::{Compute as C, Memory as M, Pred, Stack as S, TotalControlFlow as T};
     let push = |c| Op::Stack(S::Push(c));
     let mut v = vec![];
@@ -55,24 +55,28 @@ pub fn vm_programs() -> Vec<(String, Vec<Op>, RVm)> {
             format!("alloc-by-index/{breadth}"),
             vec![push(breadth), Op::Compute(C::Compute), Op::Stack(S::Dup), push(1), Op::Alu(asm::Alu::Add), Op::Memory(M::Alloc), Op::Memory(M::Store), Op::Compute(C::ComputeEnd), push(9)],
             RVm::default(),
+            "basic",
         ));
         // children end at different pcs: child 0 halts early
         v.push((
             format!("different-ends/{breadth}"),
             vec![push(breadth), Op::Compute(C::Compute), Op::Stack(S::Dup), push(0), Op::Pred(Pred::Eq), Op::TotalControlFlow(T::HaltIf), Op::Stack(S::Dup), Op::Memory(M::Alloc), Op::Compute(C::ComputeEnd), push(42)],
             RVm::default(),
+            "basic",
         ));
         // two failing children (index 1 and the last): which error is carried is masked
         v.push((
             format!("two-failing/{breadth}"),
             vec![push(breadth), Op::Compute(C::Compute), Op::Stack(S::Dup), push(0), Op::Pred(Pred::Gt), Op::TotalControlFlow(T::PanicIf), Op::Compute(C::ComputeEnd)],
             RVm::default(),
+            "basic",
         ));
         // children consume words the parent left below the index (base + index), leave the stack as high
         v.push((
             format!("consume-parent-words/{breadth}"),
             vec![push(1000), push(7), push(breadth), Op::Compute(C::Compute), Op::Alu(asm::Alu::Add), Op::Alu(asm::Alu::Add), Op::Stack(S::Dup), push(1), Op::Memory(M::Alloc), Op::Memory(M::Store), Op::Compute(C::ComputeEnd), push(9)],
             RVm::default(),
+            "basic",
         ));
         // children exit from inside their own repeat loop (early exit), later children read the counter
         v.push((
@@ -84,13 +88,30 @@ pub fn vm_programs() -> Vec<(String, Vec<Op>, RVm)> {
                 push(3), push(1), Op::Stack(S::Repeat), Op::Compute(C::ComputeEnd), Op::Stack(S::RepeatEnd),
             ],
             RVm::default(),
+            "basic",
         ));
         // children inside an open repeat loop using the counter
         v.push((
             format!("in-loop/{breadth}"),
             vec![push(2), push(1), Op::Stack(S::Repeat), push(breadth), Op::Compute(C::Compute), Op::Access(asm::Access::RepeatCounter), push(1), Op::Alu(asm::Alu::Add), Op::Memory(M::Alloc), Op::Compute(C::ComputeEnd), Op::Stack(S::RepeatEnd)],
             RVm::default(),
+            "basic",
         ));
+        // children look up predicate-data hashes through the VM's shared lazy cache: child 0
+        // asks for the LAST solution's hash, the others for the first one's; all exist
+        {
+            let env = crate::util::ProgEnv::named("two-solutions", crate::util::Cost::Const(1), 1);
+            let h = |i: usize| crate::refvm::words4(crate::refvm::sha256(&crate::refvm::predicate_exists_preimage(&env.solutions[i])));
+            let mut ops: Vec<Op> = h(0).iter().chain(h(1).iter()).map(|w| push(*w)).collect();
+            ops.extend([
+                push(breadth), Op::Compute(C::Compute),
+                push(0), Op::Pred(Pred::Eq), push(4), Op::Stack(S::Swap), Op::Stack(S::SelectRange),
+                Op::Access(asm::Access::PredicateExists),
+                push(1), Op::Memory(M::Alloc), Op::Memory(M::Store),
+                Op::Compute(C::ComputeEnd),
+            ]);
+            v.push((format!("predicate-exists/{breadth}"), ops, RVm::default(), "two-solutions"));
+        }
     }
     v
 }
